@@ -20,7 +20,9 @@ FreqOK(e) == (e.rc = 0) = ValidUnit(e.freq[1], e.freq[2])
 \* --proportion-reads: the records kept are those with index divisible by the step
 SubOK(e) == e.kept = SubSampleRecords(e.records, e.step)
 
-Accept(e) == CASE e.ev = "cli.args" -> ArgsOK(e) [] e.ev = "cli.freq" -> FreqOK(e) [] e.ev = "cli.sub" -> SubOK(e) [] OTHER -> FALSE
+\* --min-count auto = --min-count <cutoff reported by ska cov>: same dictionary
+AutoOK(e) == e.count_used = AutoMinCount(e.npaired, e.cov_cutoff) /\ e.same_table
+Accept(e) == CASE e.ev = "cli.args" -> ArgsOK(e) [] e.ev = "cli.auto" -> AutoOK(e) [] e.ev = "cli.freq" -> FreqOK(e) [] e.ev = "cli.sub" -> SubOK(e) [] OTHER -> FALSE
 Init == l = 1 /\ bad = {}
 Next == /\ l <= Len(Rec)
         /\ LET ok == Accept(Rec[l]) IN bad' = IF ok THEN bad ELSE bad \cup {l}
